@@ -154,7 +154,7 @@ PossibleSeq(n) == Types[n].possibleSeq
      "engine" custom_default_type_resolver of the engine                            - answers the FIRST possible type
    none of them: the built-in resolution (the value names its type: _typename key / attribute / class name).
    The most specific one registered for the position wins.                                                *)
-FieldTR == {"Query.p", "Query.lp", "Query.np"}
+FieldTR == {"Query.p", "Query.lp", "Query.np", "Query.lnp"}
 TypeTR == {"P"}
 TRS(C) == IF "trs" \in DOMAIN C THEN C.trs ELSE {}
 FK(C) == IF "fk" \in DOMAIN C THEN C.fk ELSE ""
@@ -178,11 +178,20 @@ LeafRaw(n, parentId, fname, args) ==
   ELSE IF KindOf(n) = "ENUM" THEN Enum(Types[n].values[1])
   ELSE Str("x")
 
+\* the falsy value of each built-in leaf type (what `if not value` style code confuses with "nothing")
+FalsyOf(n) ==
+  IF n = "Int" THEN Int(0)
+  ELSE IF n = "Float" THEN [t |-> "F", v |-> 0]
+  ELSE IF n = "Boolean" THEN Bool(FALSE)
+  ELSE Str("")
+HasOv(C, path, kind) == path \in DOMAIN C.overlay /\ C.overlay[path].o = kind
+
 RECURSIVE RawAt(_, _, _, _, _, _)
 RawAt(C, t, path, parentId, fname, args) ==
-  IF path \in DOMAIN C.overlay /\ C.overlay[path].o # "rt" THEN
+  IF path \in DOMAIN C.overlay /\ C.overlay[path].o \notin {"rt", "emptyd"} THEN
      LET o == C.overlay[path] IN
-     IF o.o = "len" THEN
+     IF o.o = "falsy" THEN [r |-> "leaf", v |-> FalsyOf(Named(t))]
+     ELSE IF o.o = "len" THEN
         LET it == IF IsNN(t) THEN Tail(Tail(t)) ELSE Tail(t) IN
         [r |-> "list", v |-> [i \in 1..o.n |-> RawAt(C, it, Append(path, Idx(i - 1)), parentId, fname, args)]]
      ELSE [r |-> o.o]
@@ -190,8 +199,9 @@ RawAt(C, t, path, parentId, fname, args) ==
   ELSE IF IsList(t) THEN
      [r |-> "list", v |-> [i \in 1..2 |-> RawAt(C, Tail(t), Append(path, Idx(i - 1)), parentId, fname, args)]]
   ELSE IF IsComposite(Named(t)) THEN
-     [r |-> "obj", id |-> JoinPath(path), d |-> JoinPath(path) \o ".d",
-      tn |-> IF path \in DOMAIN C.overlay THEN C.overlay[path].tn ELSE DefaultRT(Named(t), path)]
+     \* "emptyd": the object's default-resolved attribute `d` holds the empty string
+     [r |-> "obj", id |-> JoinPath(path), d |-> IF HasOv(C, path, "emptyd") THEN "" ELSE JoinPath(path) \o ".d",
+      tn |-> IF HasOv(C, path, "rt") THEN C.overlay[path].tn ELSE DefaultRT(Named(t), path)]
   ELSE [r |-> "leaf", v |-> LeafRaw(Named(t), parentId, fname, args)]
 
 ------------------------------------------------------------------------------
@@ -240,7 +250,8 @@ ExecField(C, rt, entry, path, parentId) ==
   ELSE
   LET args == CoerceArgs(C, fdef, node) IN
   IF ~args.ok THEN Caught(fdef.type, me, [FailAt(me, entry[2]) EXCEPT !.pos = {Pos(me, fdef.type)}])
-  ELSE LET raw  == RawAt(C, fdef.type, me, parentId, fname, args.v)
+  ELSE LET raw  == IF fdef.res = "D" /\ HasOv(C, path, "emptyd") THEN [r |-> "leaf", v |-> Str("")]
+                   ELSE RawAt(C, fdef.type, me, parentId, fname, args.v)
            call == IF fdef.res = "R" THEN <<[path |-> me, parent |-> parentId, args |-> args.v, ret |-> raw]>> ELSE <<>>
            here == IF fdef.res = "R" THEN {Pos(me, fdef.type)} ELSE {}
            r    == Complete(SetFK(C, rt \o "." \o fname), fdef.type, raw, me, entry[2]) IN
